@@ -220,3 +220,6 @@ cfg_if! {
         mod selectors_vm;
     }
 }
+
+#[cfg(all(feature = "_verif_hooks", not(feature = "_integration_test")))]
+pub use self::memory::SharedMemoryLimiter;
